@@ -23,8 +23,11 @@ TRUSTED = [
     "hand-written model coq/C10/Model.v of spikeglx.split_sync, Reader.read_sync(_digital/_analog) and "
     "ibldsp.utils.fronts/rises/falls, tied to the source by this run's correspondence",
     "little-endian host (split_sync's view(np.uint8)); np.int16(array) keeps the low 16 bits",
-    "the 10th percentile subtracted by read_sync is an input of the model (taken from the same NumPy call); "
+    "np.percentile(analog, 10, axis=0) is modelled in exact rational arithmetic (sort + linear interpolation); the "
+    "implementation computes it in float32: every generated recording keeps each sample either on an exactly "
+    "computed floor or >= 64 float32 ulps away from floor + threshold (error bound < 4 ulps), checked per case; "
     "analog ranges are powers of two so that the float32 volt values are exact",
+    "Sweep.v (exhaustive vm_compute over the 65536 words) is kernel-checked by coqc and taken as given by coqchk",
     "harness/pC10.py generators, canonicaliser and oracle",
     "extraction (Require Extraction, ExtrOcamlBasic only; Z, positive kept inductive), harness/driver.ml, "
     "ocamlfind ocamlopt; a sample of the same cases is re-evaluated by the kernel (vm_compute)",
@@ -473,6 +476,8 @@ def exec_sync_read(case):
         if fl != "default":
             kwargs["floor_percentile"] = fl
         args = () if sl is None else (slice(start, stop),)
+        if sl is not None and case.get("np_slice"):
+            args = (slice(np.int64(start), np.int64(stop)),)
         order = case.get("call_order", 0)            # the reader is stateful (memmap): vary the call sequence
         calls = {"rs": lambda: sr.read_sync(*args, **kwargs), "dg": lambda: sr.read_sync_digital(*args),
                  "an": lambda: sr.read_sync_analog(*args),
@@ -757,7 +762,7 @@ def _train(rng, n, p_toggle):
 def gen_fronts(ctx):
     rng = ctx.rng
     cases = []
-    n1 = 3000 if ctx.thorough() else 400
+    n1 = 8000 if ctx.thorough() else 400
     for j in range(n1):
         kind = rng.random()
         n = rng.choice([0, 1, 2, 3, 4, 5, 8, 13, 30, 60, 120])
@@ -811,7 +816,7 @@ def gen_fronts(ctx):
                       "dtype": "int8", "x": [1, 0] if j == 0 else ([0, 1] if j == 1 else
                                                                     _train(rng, n, rng.choice([0.2, 0.5, 1.0]))),
                       "step": st[0], "rstep": st[1], "fstep": st[2], "defaults": dflt})
-    n2 = 2000 if ctx.thorough() else 250
+    n2 = 5000 if ctx.thorough() else 250
     for j in range(n2):
         nr, nc = rng.choice([(1, 1), (1, 7), (7, 1), (2, 2), (2, 9), (3, 5), (5, 3), (4, 16), (16, 12), (6, 40),
                              (0, 4), (3, 0), (2, 3)])
@@ -886,7 +891,7 @@ def fixed_sync_read():
 def gen_sync_read(ctx):
     rng = ctx.rng
     cases = fixed_sync_read()
-    n = 1200 if ctx.thorough() else 170
+    n = 3000 if ctx.thorough() else 170
     for j in range(n):
         ns = rng.choice([1, 2, 11, 21, 31, 40, 50, 64])
         u = rng.random()
@@ -929,9 +934,23 @@ def gen_sync_read(ctx):
             sel_ = list(range(a_, max(a_, b_)))
             acols_ = list(range(counts[0] + counts[1], counts[0] + counts[1] + counts[2]))
             use_fl = (fl == "default") or bool(fl)
+            gf = Fraction(range_max) / 32768
             for attempt in range(40):
+                if attempt < 30 and sel_:
+                    # put the pulses of the selection right at floor + threshold (within 2 counts), the floor
+                    # being the interpolated percentile of this very column: any other floor flips a bit
+                    for ac in acols_:
+                        colv = [D[t][ac] for t in sel_]
+                        which_thr = thr_eff if (use_fl and rng.random() < 0.7) else THR_DEFAULT
+                        pfl = exact_floor(colv)[0] if (use_fl or which_thr == THR_DEFAULT) else Fraction(0)
+                        target = pfl + Fraction(which_thr) / gf
+                        lowmax = sorted(colv)[min(len(colv) - 1, (len(colv) - 1) // 10 + 1)]
+                        for t in sel_:
+                            if D[t][ac] > lowmax + 60:      # a pulse sample, clear of the order statistics in use
+                                nv = int(target // 1) + rng.choice([-1, 0, 0, 1, 1, 2])
+                                if lowmax + 60 < nv <= 32767:
+                                    D[t][ac] = nv
                 Dn = np.array(D, dtype=np.int64).reshape(ns, nc)
-                gf = Fraction(range_max) / 32768
                 if (analog_safety(Dn, sel_, acols_, gf, thr_eff, use_fl)[1]
                         and analog_safety(Dn, sel_, acols_, gf, THR_DEFAULT, True)[1]):
                     break
@@ -941,7 +960,7 @@ def gen_sync_read(ctx):
                         D[t][counts[0] + counts[1] + c] = max(-32768, min(32767, col[t]))
         c = {"kind": "sync_read", "typ": typ, "counts": counts, "ns": ns, "nc": nc, "range_max": range_max,
              "data": [v for row in D for v in row], "slice": sl, "threshold": thr, "floor": fl,
-             "path_as_str": rng.random() < 0.3, "call_order": rng.randrange(3)}
+             "path_as_str": rng.random() < 0.3, "call_order": rng.randrange(3), "np_slice": rng.random() < 0.25}
         cases.append(c)
     return cases
 
@@ -949,7 +968,7 @@ def gen_sync_read(ctx):
 def gen_ttl(ctx):
     rng = ctx.rng
     cases = []
-    n = 500 if ctx.thorough() else 60
+    n = 1200 if ctx.thorough() else 60
     for j in range(n):
         u = rng.random()
         typ = "nidq" if u < 0.8 else rng.choice(["ap", "lf"])
@@ -1000,7 +1019,9 @@ def brief(case):
 # --------------------------------------------------------------------------
 def run(ctx):
     logging.disable(logging.CRITICAL)
-    common.proof_obligations(ctx, whitelist=[])
+    # Sweep.v = the exhaustive vm_compute evaluation of all 65536 words: compiled and kernel-checked by coqc,
+    # taken as given by coqchk in the thorough tier (re-evaluation without the VM takes too long)
+    common.proof_obligations(ctx, whitelist=[], coqchk_admit=["IBL.C10.Sweep"])
     cases = load_corpus()
     cases += gen_split(ctx) + gen_fronts(ctx) + gen_sync_read(ctx) + gen_ttl(ctx)
     cases += [{"kind": "nometa", "ns": 12, "fill_seed": ctx.rng.randrange(10 ** 6)}]
@@ -1056,15 +1077,16 @@ def run(ctx):
              "of other dtypes/layouts; (fronts1/fronts2) 0/1 trains, multi-level integer signals with steps around "
              "the jump sizes, analog traces within 2 ulp of the threshold, 1-D and 2-D along both axes; (sync_read) "
              "mock nidq/imec recordings read through Reader.read_sync/_digital/_analog with slices, thresholds on "
-             "the sample grid, floor on/off; (ttl) event trains on random subsets of the 16 lines written into a "
+             "the sample grid and pulses placed within 2 counts of (interpolated floor + threshold), floor on/off, each "
+             "observed through read_sync, read_sync_digital, read_sync_analog and read(...)[1] in varying call order; (ttl) event trains on random subsets of the 16 lines written into a "
              "mock recording, read back and front-detected. Each case runs the real functions, the Python oracle "
              "and the Coq model. Non-trivial = a non-zero word / at least one front / a non-zero sync sample / at "
              "least one event; distinct by the full case content",
         samples=samples, evaluations=len(cases), distinct_nontrivial=len(nontrivial),
         extra={"input_distribution": dist, "exhaustive": False, "words_exhaustive": len(words_seen) == 65536,
                "model_cases": len(inputs)},
-        assumptions=["little-endian host", "np.percentile(column, 10) of a column that is at its minimum for more "
-                     "than 10% of the samples is that minimum (checked on every generated recording)"])
+        assumptions=["little-endian host", "float32 evaluation of the percentile / subtraction / comparison agrees with "
+                     "exact arithmetic when no sample is within 64 ulps of floor + threshold (enforced per recording)"])
 
 
 def replay(ctx, data):
